@@ -527,7 +527,8 @@ def run(ctx: Ctx):
     # (run first, and in forked children of a freshly imported bs4, so that nothing this check does earlier can mask or
     #  cause a dependence on history)
     r = ctx.rng("history")
-    hists = []
+    hists = [v["case"]["calls"] for v in (json.load(open(f)) for f in sorted((CORPUS / "C19").glob("*.json"))) if v["case"].get("op") == "history"]
+    ctx.count("corpus:history", len(hists))
     # systematic: every spelling once before each canonical carrier name (and the reverse order)
     for sp in SPELLINGS:
         for canon in DOCUMENTED_CARRIERS:
@@ -555,9 +556,13 @@ def run(ctx: Ctx):
         for c in h:
             uniq.setdefault(json.dumps(c, sort_keys=True), c)
     # the spelling grid: every spelling x every mode x a few inputs, each in a pristine process
+    for v in (json.load(open(f)) for f in sorted((CORPUS / "C19").glob("*.json"))):
+        if v["case"].get("op") == "ud":
+            c = {k: v["case"][k] for k in ("k", "b", "known", "mode")}
+            uniq.setdefault(json.dumps(c, sort_keys=True), c)
     for sp in SPELLINGS:
         for mode in MODES:
-            for data in (b"\x93", b"a\x80\x9fz", b"\xef\xbb\xbf<p>\x85", b"\x81\xe9"):
+            for data in (b"\x93", b"a\x80\x9fz", b"\xef\xbb\xbf<p>\x85", b"\x81\xe9", b"\xef\xbb\xbf", b"\xff\xfe"):
                 c = {"k": "ud", "b": list(data), "known": [sp], "mode": mode}
                 uniq.setdefault(json.dumps(c, sort_keys=True), c)
     for enc in DOCUMENTED_CARRIERS:
@@ -626,6 +631,44 @@ def run(ctx: Ctx):
         if len(data) == 1 and mode == "xml" and not expected_carrier(known[0]):
             spelling_obs[known[0]] = {"find_codec->original_encoding": res[2], "converted": res[0] != data.decode("latin-1") and "&" in (res[0] or "")}
     ctx.extra["spellings_outside_the_documented_three"] = spelling_obs
+
+    # ---------------- F. find_codec on the whole generated universe of spellings; strip_byte_order_mark -----------------------
+    import importlib, sys as _sys
+    from .common import VERIF
+    if str(VERIF / "translate") not in _sys.path:
+        _sys.path.insert(0, str(VERIF / "translate"))
+    universe = importlib.import_module("parts_c19").name_universe()
+    from bs4.dammit import EncodingDetector
+    flines, fimpl, fcases = [], [], []
+    probe = U(b"x")
+    for name in universe:
+        got = probe.find_codec(name)
+        flines.append(f"c19 findcodec {S(name)}")
+        fimpl.append(f"{'none' if got is None else 'some ' + S(got)} listed=1 carrier={1 if got in U.ENCODINGS_WITH_SMART_QUOTES else 0}")
+        fcases.append({"op": "findcodec", "name": name})
+        ctx.case(None)
+        ctx.count("findcodec:" + ("carrier" if got in U.ENCODINGS_WITH_SMART_QUOTES else "other"))
+        # the documented names, in any letter case, must be recognised as carriers
+        if expected_carrier(name) and got not in DOCUMENTED_CARRIERS:
+            ctx.violation(f"find_codec({name!r}) = {got!r}: a documented smart-quote encoding is not recognised", stream="findcodec",
+                          case={"op": "findcodec", "name": name}, expected=name.lower(), observed=got)
+    r = ctx.rng("bom")
+    for i in range(ctx.n(600, 6000)):
+        data = r.choice(BOMS + [b""]) + bytes(r.choice([0, 0, 0xFE, 0xFF, 0xEF, 0xBB, 0xBF, 0x93, 0x41]) for _ in range(r.randrange(0, 5)))
+        got, enc = EncodingDetector.strip_byte_order_mark(data)
+        flines.append(f"c19 stripbom {L(data)}")
+        fimpl.append(f"{L(got)} {'none' if enc is None else 'some ' + S(enc)}")
+        fcases.append({"op": "stripbom", "bytes": list(data)})
+        ctx.case(None)
+        ctx.count("stripbom:" + ("stripped" if enc else "none"))
+        if got != strip_bom_oracle(data):
+            ctx.violation("strip_byte_order_mark differs from the documented byte-order marks", stream="stripbom",
+                          case={"op": "stripbom", "bytes": list(data)}, expected=list(strip_bom_oracle(data)), observed=list(got))
+    for l, a, m, c in zip(flines, fimpl, drv.ask(flines), fcases):
+        if a != m:
+            ctx.corr_disagreements += 1
+            limited(ctx, "model and implementation disagree (" + c["op"] + ")", case=c | {"line": l}, observed=a, model=m,
+                    stream="findcodec-correspondence", no_failing_input=True)
 
     # ---------------- A. exhaustive: 32 bytes x 4 modes x (carriers + non-carriers), alone and in context ------------------
     encs = car + [e for e in NON_CARRIERS if e not in car]
